@@ -758,7 +758,7 @@ def run_cand(prop, tier, seed, model=True):
             rnd.shuffle(a)
             rnd.shuffle(b)
             allf = a[:14] + b[:10] if prop == 'C03' else a[:4] + b[:3]
-        fam = allf
+        fam = allf + cand.OLDFORM
     if prop == 'C20':
         # the sharing family: one request may stand for several anchors, which a limit must not count
         allf = list(range(36))
